@@ -152,6 +152,7 @@ func checkC11(w *World, r *Report) {
 	checkResolvesThroughLoad(w, r, "R11.5", []string{"IncludeNode"}, "an include is answered from a per-node or per-context shortcut instead of the template the name denotes now")
 	checkChainFlattening(w, r)
 	checkReadsFollowChain(w, r)
+	checkNoWritesUpTheChain(w, r)
 
 	// ---- R11.2 / R11.3 in IncludeNode.Render and its parts (unexported helpers with that one call
 	// site; flags may travel in a local struct of options and be tested by predicate helpers)
@@ -1113,4 +1114,62 @@ func decidesOrYields(lk *ssa.Lookup) bool {
 		}
 	}
 	return false
+}
+
+// checkNoWritesUpTheChain — R11.9: a context's variables are written by its own template only.
+// No store into, and no delete from, the variable map of a context that was reached through a
+// .parent link: an included template, a macro or a loop body that could assign in an enclosing
+// context would change the includer's state.
+func checkNoWritesUpTheChain(w *World, r *Report) {
+	n := 0
+	viaParent := func(v ssa.Value) bool {
+		seen := map[ssa.Value]bool{}
+		var walk func(v ssa.Value, d int) bool
+		walk = func(v ssa.Value, d int) bool {
+			v = unspill(v)
+			if seen[v] || d > 8 {
+				return false
+			}
+			seen[v] = true
+			if _, ok := fieldLoad(v, "RenderContext", "parent"); ok {
+				return true
+			}
+			if ph, ok := v.(*ssa.Phi); ok {
+				for _, e := range ph.Edges {
+					if walk(e, d+1) {
+						return true
+					}
+				}
+			}
+			return false
+		}
+		return walk(v, 0)
+	}
+	for _, fn := range w.pkgFuncs() {
+		instrsOf(fn, func(in ssa.Instruction) {
+			var m ssa.Value
+			what := ""
+			switch x := in.(type) {
+			case *ssa.MapUpdate:
+				m, what = x.Map, "store into"
+			case *ssa.Call:
+				if b, ok := x.Call.Value.(*ssa.Builtin); ok && b.Name() == "delete" {
+					m, what = x.Call.Args[0], "delete from"
+				}
+			}
+			if m == nil {
+				return
+			}
+			owner, ok := fieldLoad(m, "RenderContext", "context")
+			if !ok {
+				return
+			}
+			n++
+			if viaParent(owner) {
+				r.bad("R11.9", ssaName(fn), what+" the variables of an enclosing context", w.posOf(in.Pos()), "the variable map written here belongs to a context reached through .parent: a template rendered in a child context (an include, a macro, a loop body) changes what the enclosing template sees afterwards")
+			}
+		})
+	}
+	r.ok("R11.9", "(package)", "variable maps are written through their own context only", "-", fmt.Sprintf("%d stores/deletes on RenderContext.context, none through a .parent link", n), true)
+	r.floor("writes to a context's variable map", n, 2)
 }
